@@ -43,6 +43,16 @@ func (e *Engine) repeatedBound(path string) (int, int) {
 	return 1, 1
 }
 
+// decLeaf is dec_path(bz), or the original leaf when bz is an encoding produced on this path (decode(encode(x)) = x).
+func (e *Engine) decLeaf(path string, s Sort, bz *T) *T {
+	if m := e.encInfo[bz]; m != nil {
+		if t, ok := m[path]; ok && t.Sort == s {
+			return t
+		}
+	}
+	return UF("dec"+path, s, bz)
+}
+
 // decodeInto fills l (of type l.T) with uninterpreted functions of bz.
 func (e *Engine) decodeInto(l *Loc, bz *T, path string, depth int) {
 	if depth > 8 {
@@ -50,10 +60,10 @@ func (e *Engine) decodeInto(l *Loc, bz *T, path string, depth int) {
 	}
 	switch opaqueKind(l.T) {
 	case "time":
-		l.Val = &TimeVal{Ns: UF("dec"+path, BVS(64), bz)}
+		l.Val = &TimeVal{Ns: e.decLeaf(path, BVS(64), bz)}
 		return
 	case "sdkint":
-		l.Val = &IntVal{V: UF("dec"+path, IntS, bz)}
+		l.Val = &IntVal{V: e.decLeaf(path, IntS, bz)}
 		return
 	}
 	switch u := l.T.Underlying().(type) {
@@ -70,16 +80,21 @@ func (e *Engine) decodeInto(l *Loc, bz *T, path string, depth int) {
 		if !ok {
 			return
 		}
-		l.Val = UF("dec"+path, s, bz)
+		l.Val = e.decLeaf(path, s, bz)
 	case *types.Slice:
 		if isByteSlice(l.T) {
-			l.Val = UF("dec"+path, StrS, bz)
+			l.Val = e.decLeaf(path, StrS, bz)
 			return
 		}
-		lo, hi := e.repeatedBound(path)
-		lenUF := UF("declen"+path, IntS, bz)
-		k := e.choose(hi-lo+1, func(i int) *T { return Eq(lenUF, IntConst(int64(lo+i))) })
-		n := lo + k
+		var n int
+		if m := e.encInfo[bz]; m != nil && m["#len"+path] != nil {
+			n = int(m["#len"+path].Int.Int64())
+		} else {
+			lo, hi := e.repeatedBound(path)
+			lenUF := UF("declen"+path, IntS, bz)
+			k := e.choose(hi-lo+1, func(i int) *T { return Eq(lenUF, IntConst(int64(lo+i))) })
+			n = lo + k
+		}
 		arr := e.newLoc(types.NewArray(u.Elem(), int64(n)))
 		for i := 0; i < n; i++ {
 			e.decodeInto(arr.Elems[i], bz, fmt.Sprintf("%s_%d", path, i), depth+1)
@@ -114,8 +129,13 @@ func (e *Engine) decodeIfaceField(t types.Type, bz *T, path string, depth int) V
 	if len(cands) == 0 {
 		return nil
 	}
-	tag := UF("dectype"+path, IntS, bz)
-	k := e.choose(len(cands), func(i int) *T { return Eq(tag, IntConst(int64(i))) })
+	var k int
+	if m := e.encInfo[bz]; m != nil && m["@type"+path] != nil {
+		k = int(m["@type"+path].Int.Int64())
+	} else {
+		tag := UF("dectype"+path, IntS, bz)
+		k = e.choose(len(cands), func(i int) *T { return Eq(tag, IntConst(int64(i))) })
+	}
 	ct := cands[k]
 	pt := ct.(*types.Pointer)
 	nl := e.newLoc(pt.Elem())
@@ -227,7 +247,23 @@ func (e *Engine) encode(v Value, t types.Type, tname string) *T {
 	// an encoded message is never the empty byte string (absent store value); see DESIGN 2.4
 	ax = append(ax, Not(Eq(enc, StrConst(""))))
 	e.addAxiom(key, AndN(ax...))
+	e.recordEnc(enc, leaves, lens)
 	return enc
+}
+
+func (e *Engine) recordEnc(enc *T, leaves, lens []encLeaf) {
+	m := map[string]*T{}
+	for _, l := range leaves {
+		m[l.path] = l.t
+	}
+	for _, l := range lens {
+		if strings.HasPrefix(l.path, "@type") {
+			m[l.path] = l.t
+		} else {
+			m["#len"+l.path] = l.t
+		}
+	}
+	e.encInfo[enc] = m
 }
 
 func init() {
@@ -310,6 +346,7 @@ func init() {
 				}
 				ax = append(ax, Not(Eq(enc, StrConst(""))))
 				e.addAxiom(fmt.Sprintf("enc:%d", enc.id), AndN(ax...))
+				e.recordEnc(enc, leaves, lens)
 				return enc
 			}
 		}
